@@ -1,0 +1,64 @@
+//go:build verif
+
+package carapace
+
+// Hooks for the verification machinery in /verif (build tag `verif`).
+// Add-only: re-exports unexported entry points through plain data types.
+
+import (
+	"github.com/carapace-sh/carapace/internal/common"
+	"github.com/carapace-sh/carapace/internal/shell"
+	"github.com/carapace-sh/carapace/internal/shell/bash"
+	"github.com/carapace-sh/carapace/internal/shell/zsh"
+	"github.com/carapace-sh/carapace/pkg/match"
+)
+
+type (
+	VerifRawValue = common.RawValue
+	VerifMeta     = common.Meta
+)
+
+// VerifShellValue calls the formatting pipeline (internal/shell.Value).
+func VerifShellValue(shellName, word string, meta VerifMeta, values []VerifRawValue) string {
+	return shell.Value(shellName, word, meta, common.RawValues(values))
+}
+
+// VerifBashState sets the state bash.Patch leaves behind for bash.ActionRawValues.
+func VerifBashState(wordbreakPrefix, compType string) {
+	bash.VerifSetState(wordbreakPrefix, compType)
+}
+
+// VerifSetMatch sets the case sensitivity otherwise fixed at init.
+func VerifSetMatch(caseInsensitive bool) {
+	match.VerifSetMatch(caseInsensitive)
+}
+
+// VerifZshNamedDirectories replaces the named directory table of the zsh formatter.
+func VerifZshNamedDirectories(m map[string]string) {
+	for k := range zsh.NamedDirectories {
+		delete(zsh.NamedDirectories, k)
+	}
+	for k, v := range m {
+		zsh.NamedDirectories[k] = v
+	}
+}
+
+// VerifInvoked exposes meta and values of an InvokedAction.
+func VerifInvoked(ia InvokedAction) (VerifMeta, []VerifRawValue) {
+	return ia.action.meta, ia.action.rawValues
+}
+
+// VerifAction builds a static Action from meta and values.
+func VerifAction(meta VerifMeta, values []VerifRawValue) Action {
+	return Action{meta: meta, rawValues: values}
+}
+
+// VerifValue formats an InvokedAction for a shell (InvokedAction.value).
+func VerifValue(ia InvokedAction, shellName, word string) string {
+	return ia.value(shellName, word)
+}
+
+// VerifTokenize exposes tokenize.
+func VerifTokenize(s string, dividers ...string) []string {
+	return tokenize(s, dividers...)
+}
